@@ -704,6 +704,24 @@ def ident(n):
     return n + "'" if n in LEAN_KW else n
 
 
+GUARD_METHODS = ("lock", "write", "read", "borrow", "borrow_mut")
+
+
+def strip_guard(r):
+    """`self.map.write()` / `self.order.lock()` used as a receiver or argument: the guarded field itself"""
+    while True:
+        if r[0] in ("paren", "deref", "ref"):
+            r = r[1]
+        elif r[0] == "mcall" and r[2] in GUARD_METHODS and not r[4]:
+            r = r[1]
+        else:
+            return r
+
+
+def is_self_field(r):
+    return r[0] == "field" and r[1][0] == "path" and r[1][1] == ["self"]
+
+
 class Emitter:
     """one instance per translated function.  `profile` supplies the meaning of receivers, paths and methods:
          profile.path(segs, generics)            -> lean text or None
@@ -716,6 +734,14 @@ class Emitter:
     def __init__(self, profile, fname):
         self.p, self.fname = profile, fname
         self.tmp = 0
+
+    @staticmethod
+    def lock_alias(st):
+        """`let [mut] g = self.<field>.lock() / .write() / .read();` -> (g, field)"""
+        if st[0] == "let" and st[1][0] == "pid" and st[3][0] == "mcall" and st[3][2] in GUARD_METHODS and not st[3][4] \
+                and is_self_field(st[3][1]):
+            return (st[1][1], st[3][1][2])
+        return None
 
     def fresh(self, base="t"):
         self.tmp += 1
@@ -780,6 +806,9 @@ class Emitter:
             local = set(local)
             for s in b[1]:
                 if s[0] == "let":
+                    if self.lock_alias(s) is not None:
+                        add("self")
+                        self.p.kinds[self.lock_alias(s)[0]] = self.p.kinds.get("self." + self.lock_alias(s)[1])
                     walk_expr(s[3], local)
                     for v in self.pat_vars(s[1]):
                         local.add(v)
@@ -821,13 +850,11 @@ class Emitter:
                     walk_expr(a, local)
             elif k == "mcall":
                 if self.p.mut_method(e[2], e[1]) is not None:
-                    r = e[1]
-                    while r[0] in ("paren", "deref", "ref"):
-                        r = r[1]
+                    r = strip_guard(e[1])
                     if r[0] == "path" and len(r[1]) == 1:
                         if r[1][0] not in local:
                             add(r[1][0])
-                    elif r[0] == "field" and r[1][0] == "path" and r[1][1] == ["self"]:
+                    elif is_self_field(r):
                         add("self")
                     else:
                         self.fail("receiver of a mutating method", e)
@@ -1007,8 +1034,20 @@ class Emitter:
         the tuple of their final values (the tail, if any, must be unit)"""
         lines = []
         env = list(env)
+        aliases = []
         for s in b[1]:
+            al = self.lock_alias(s)
+            if al is not None:
+                v, fl = al
+                aliases.append(al)
+                self.p.kinds[v] = self.p.kinds.get("self." + fl)
+                env.append(v)
+                lines.append(self.let(ident(v), "self." + ident(fl)))
+                continue
             lines += self.stmt(s, env)
+        wb = [self.let("self", "{ self with " + ident(fl) + " := " + ident(v) + " }") for (v, fl) in aliases]
+        if aliases and result is None:
+            self.fail("a guard alias in a block that is used as a value", b)
         if result is None:
             if b[2] is None:
                 final = self.wrap("()")
@@ -1020,7 +1059,7 @@ class Emitter:
                 lines += self.stmt(("expr", b[2]), env)
             final = self.wrap(self.tup(result))
         sep = "\n" if self.p.fallible else "; "
-        return sep.join(lines + [final])
+        return sep.join(lines + wb + [final])
 
     def tail(self, e, env):
         return self.wrap(self.expr(e, env))
@@ -1239,10 +1278,8 @@ class Emitter:
         if cur[0] != "mcall" or self.p.mut_method(cur[2], cur[1]) is None:
             return ([], e)
         fn, returns = self.p.mut_method(cur[2], cur[1])
-        r = cur[1]
-        while r[0] in ("paren", "deref", "ref"):
-            r = r[1]
-        if r[0] == "field" and r[1][0] == "path" and r[1][1] == ["self"]:
+        r = strip_guard(cur[1])
+        if is_self_field(r):
             # self.<cell>.m(args): the cell is a field of the receiver record
             cell = ident(r[2])
             args = " ".join("(" + (self.p.tuple3_entry(a, self, env) if (fn == "RustLite.mapInsert" and a[0] == "tuple" and len(a[1]) == 3)
@@ -1525,11 +1562,10 @@ class PureProfile(BaseProfile):
     FIELDS = {"frequency": "hits", "inserted_at": "birth", "value": "val"}
 
     def kind_of(self, e):
-        while e[0] in ("paren", "ref", "deref"):
-            e = e[1]
+        e = strip_guard(e)
         if e[0] == "path" and len(e[1]) == 1:
             return self.kinds.get(e[1][0])
-        if e[0] == "field" and e[1][0] == "path" and e[1][1] == ["self"]:
+        if is_self_field(e):
             return self.kinds.get("self." + e[2])
         return None
 
@@ -1588,6 +1624,9 @@ class PureProfile(BaseProfile):
 
     def fn_call(self, name, args):
         f = self.fns[name]
+        self.uses_float = self.uses_float or "A" in f["implicit"]
+        self.uses_clock = self.uses_clock or "clock" in f["implicit"]
+        self.uses_rand = self.uses_rand or "r" in f["implicit"]
         return " ".join([f.get("lean_name", name)] + f["implicit"] + ["(" + a + ")" for a in args])
 
     def let_type(self, ty):
@@ -1695,6 +1734,9 @@ class PureProfile(BaseProfile):
         name = segs[-1]
         if name in self.fns and not self.fns[name]["mut_idx"]:
             return "(" + self.fn_call(name, [em.expr(a, env) for a in args]) + ")"
+        if segs[-2:] == ["CacheEntry", "new"] and len(args) == 1:
+            self.uses_clock = True
+            return f"(RustLite.newEntry clock {em.expr(args[0], env)})"
         if segs[-2:] == ["SystemTime", "now"] and not args:
             self.uses_clock = True
             return "clock.now"
@@ -1783,7 +1825,8 @@ def regenerate():
         except Exception as e:      # the parser met something it does not know: no translation, the obligation is broken
             problems.append(f"{rel}: translator error {e!r}")
             text = "-- translation failed: " + repr(e).replace("\n", " ") + "\n"
-        write_if_changed(os.path.join(GEN_DIR, f"Pure{mod}.lean"), hdr + f"namespace {mod}\nvariable {{K V F : Type}} [DecidableEq K]\n\n" + text + f"\nend {mod}\nend Cachelito.Generated\n")
+        h2 = hdr.replace("import Cachelito.RustLite\n", "import Cachelito.RustLite\nimport Cachelito.Generated.PureUtils\n") if mod == "Global" else hdr
+        write_if_changed(os.path.join(GEN_DIR, f"Pure{mod}.lean"), h2 + f"namespace {mod}\nvariable {{K V F : Type}} [DecidableEq K]\n\n" + text + f"\nend {mod}\nend Cachelito.Generated\n")
     info["problems"] = problems
     return info
 
@@ -1835,6 +1878,9 @@ UTIL_FILES = [
     ("Stats", "cachelito-core/src/stats.rs", "RustLite.StatsCell", {"self.hits": "atomic", "self.misses": "atomic"},
      ["record_hit", "record_miss", "hits", "misses", "total_accesses", "hit_rate", "miss_rate", "reset"]),
     ("Policy", "cachelito-core/src/eviction_policy.rs", None, {}, ["is_valid", "from"]),
+    ("Global", "cachelito-core/src/global_cache.rs", "RustLite.GlobalCache K V F",
+     {"self.map": "map", "self.order": "deque", "self.frequency_weight": "optf64"},
+     ["handle_entry_limit_eviction", "insert"]),
     ("Async", "cachelito-core/src/async_global_cache.rs", "RustLite.AsyncCache K V F",
      {"self.cache": "map", "self.order": "deque", "self.frequency_weight": "optf64"},
      ["find_min_frequency_key", "find_arc_eviction_key", "find_tlru_eviction_key", "is_already_key_inserted",
@@ -1860,9 +1906,8 @@ def emit_fn_body(em, f, env, muts):
         lines = []
         for idx, st in enumerate(stmts):
             # lock alias
-            if st[0] == "let" and st[1][0] == "pid" and st[3][0] == "mcall" and st[3][2] == "lock" and \
-                    st[3][1][0] == "field" and st[3][1][1] == ("path", ["self"], None):
-                v, fl = st[1][1], st[3][1][2]
+            if em.lock_alias(st) is not None:
+                v, fl = em.lock_alias(st)
                 aliases.append((v, fl))
                 em.p.kinds[v] = em.p.kinds.get("self." + fl)
                 env.append(v)
@@ -1888,6 +1933,9 @@ def emit_fn_body(em, f, env, muts):
     return "  " + go(list(b[1]), b[2], list(env))
 
 
+EXTERNAL = {}      # functions of modules translated earlier: name -> table entry (with qualified lean_name)
+
+
 def translate_utils(module):
     out = []
     info = {"functions": []}
@@ -1904,7 +1952,7 @@ def translate_utils(module):
         if missing:
             raise Untranslatable(f"{rel}: function(s) the model transcribes are missing from the source: {', '.join(missing)}")
         # signature pass
-        table = {}
+        table = {k: v for k, v in EXTERNAL.items() if module == "Global"}
         for name in wanted:
             hdr, f = byname[name]
             mut_idx = [i for i, (pn, pt) in enumerate(f["params"]) if pt.replace(" ", "").startswith("&mut")]
@@ -1977,6 +2025,8 @@ def translate_utils(module):
                 table[name]["lean_name"] = lname
             out.append(f"/-- `{rel}:{f['line']}`  fn {name} -/\ndef {lname} {' '.join(imp + sig)} :=\n{body}\n")
             info["functions"].append({"name": name, "file": rel, "line": f["line"], "mutates": muts, "implicit": table[name]["implicit"]})
+            if module == "Utils":
+                EXTERNAL[name] = dict(table[name], lean_name="Utils." + name)
     return "\n".join(out), info
 
 
